@@ -51,10 +51,10 @@ type c18Case struct {
 	SecondDir    string     `json:"second_directive_path,omitempty"`
 	// AbsentFirst: a directive naming an upstream reference that has no entry in the
 	// upstream log precedes the others; it propagates nothing and must not stop them
-	AbsentFirst bool `json:"absent_first,omitempty"`
-	LogState     string     `json:"log_state"` // entry | none | latest-skipped | updated
-	Repeats      int        `json:"repeats"`
-	Modes        bool       `json:"modes"`
+	AbsentFirst bool   `json:"absent_first,omitempty"`
+	LogState    string `json:"log_state"` // entry | none | latest-skipped | updated
+	Repeats     int    `json:"repeats"`
+	Modes       bool   `json:"modes"`
 }
 
 type lsEntry struct{ mode, typ, id string }
